@@ -278,6 +278,14 @@ def _returns_name(src):
 
 
 def _c02_blame(case):
+    # only a circuit that the C02 monitor itself finds wrong can be blamed on a C02 root cause
+    try:
+        qc1, n1, r1, e1, _ = K.compile_case(case, True)
+        o1 = CC.observe(qc1, n1, r1, e1)
+        if not o1.wrong_out:
+            return None
+    except Exception:
+        return None
     CC.install_counterfactual()
     CC.COUNTERFACTUAL["no_inplace_not"] = True
     try:
